@@ -506,6 +506,47 @@ func runDecode(r *vh.Rng, out *vh.Out, mult int) {
 		}
 	}
 	okerr := func(a string) string { return strings.SplitN(a, " ", 2)[0] }
+	// (first in the stream: a sequence is self-contained, so for a defect that carries state from one call to the
+	// next the first reported disagreement is replayable on its own)
+	// sequences on ONE destination: decode a, then b, then an invalid text, then c, ...
+	for i := 0; i < 800*mult; i++ {
+		p, pc := genPrev(r, nil, last)
+		n := 2 + r.Intn(5)
+		steps := make([]string, n)
+		nerr := 0
+		for k := range steps {
+			switch r.Intn(5) {
+			case 0, 1:
+				s, _ := genText(r)
+				if r.Intn(3) > 0 {
+					s, _ = genString(r)
+				}
+				steps[k] = "t:" + vh.Hex([]byte(s))
+			case 2, 3:
+				s, _ := genUJSON(r)
+				steps[k] = "j:" + vh.Hex([]byte(s))
+			default:
+				switch r.Intn(6) {
+				case 0:
+					steps[k] = "c:null"
+				case 1:
+					steps[k] = "c:" + vh.Hex(r.Bytes(r.Intn(20)))
+				default:
+					steps[k] = "c:" + vh.Hex(genUUIDBytes(r))
+				}
+			}
+		}
+		op := fmt.Sprintf("useq %s %s", vh.Hex(p), strings.Join(steps, " "))
+		a := exec(op)
+		nerr = strings.Count(a, "err:")
+		cls := "all-ok"
+		if nerr == n {
+			cls = "all-err"
+		} else if nerr > 0 {
+			cls = "mixed"
+		}
+		out.Case(op, a, fmt.Sprintf("useq/%s/%s", pc, cls), true)
+	}
 	for i := 0; i < 1500*mult; i++ {
 		s, cls := genText(r)
 		p, pc := genPrev(r, textOf(s), last)
@@ -662,45 +703,6 @@ func runDecode(r *vh.Rng, out *vh.Out, mult int) {
 		op = fmt.Sprintf("mcql %s %s", kind, c)
 		a = exec(op)
 		out.Case(op, a, "mcql/"+kind+"/"+okerr(a), true)
-	}
-	// sequences on ONE destination: decode a, then b, then an invalid text, then c, ...
-	for i := 0; i < 800*mult; i++ {
-		p, pc := genPrev(r, nil, last)
-		n := 2 + r.Intn(5)
-		steps := make([]string, n)
-		nerr := 0
-		for k := range steps {
-			switch r.Intn(5) {
-			case 0, 1:
-				s, _ := genText(r)
-				if r.Intn(3) > 0 {
-					s, _ = genString(r)
-				}
-				steps[k] = "t:" + vh.Hex([]byte(s))
-			case 2, 3:
-				s, _ := genUJSON(r)
-				steps[k] = "j:" + vh.Hex([]byte(s))
-			default:
-				switch r.Intn(6) {
-				case 0:
-					steps[k] = "c:null"
-				case 1:
-					steps[k] = "c:" + vh.Hex(r.Bytes(r.Intn(20)))
-				default:
-					steps[k] = "c:" + vh.Hex(genUUIDBytes(r))
-				}
-			}
-		}
-		op := fmt.Sprintf("useq %s %s", vh.Hex(p), strings.Join(steps, " "))
-		a := exec(op)
-		nerr = strings.Count(a, "err:")
-		cls := "all-ok"
-		if nerr == n {
-			cls = "all-err"
-		} else if nerr > 0 {
-			cls = "mixed"
-		}
-		out.Case(op, a, fmt.Sprintf("useq/%s/%s", pc, cls), true)
 	}
 	// the print/parse round trip through every printer/decoder pair on a dirty destination
 	for i := 0; i < 1000*mult; i++ {
